@@ -205,6 +205,13 @@ def run_a(ctx, case):
         else:
             edges.append(None)
     face = cb.Face(q, edges)
+    if int(abs(float(q[0][0])) * 1e6) % 3 == 0:
+        kinds_before = [e.kind for e in face.edges]
+        face.remove_edges([])  # a computed list of corners to clear that happens to be empty: nothing changes
+        ctx.count("A:remove_edges-with-an-empty-list")
+        if [e.kind for e in face.edges] != kinds_before:
+            ctx.violation("A:remove_edges([]):edges-changed", f"edge kinds {kinds_before} became {[e.kind for e in face.edges]}")
+            return
     # corners projected before the calls: a label belongs to a geometric corner, not to a slot
     for i, lb in enumerate(case.get("corner_labels") or []):
         if lb:
@@ -230,6 +237,7 @@ def run_a(ctx, case):
     for call in case["calls"]:
         before_pts, _ = state()
         n_before = newell_normal(before_pts)
+        lib_before = np.array(face.normal, dtype=float)
         name = call[0]
         names.append(name if name != "shift" else f"shift{call[1]}")
         if name == "invert":
@@ -253,6 +261,14 @@ def run_a(ctx, case):
             return
         n_after = newell_normal(pts)
         dot = float(np.dot(n_before, n_after))
+        # the face's own normal property (also of a non-planar face) flips with invert and is untouched by re-indexing
+        lib_after = np.array(face.normal, dtype=float)
+        ctx.count("A:face.normal-observed")
+        ldot = float(np.dot(lib_before, lib_after)) / float(np.linalg.norm(lib_before) * np.linalg.norm(lib_after))
+        if not ((ldot <= -1 + 1e-9) if name == "invert" else (ldot >= 1 - 1e-9)):
+            ctx.violation(f"A:{name}:face.normal-" + ("not-flipped" if name == "invert" else "changed"),
+                          f"calls {case['calls']}: face.normal was {lib_before.tolist()}, is {lib_after.tolist()} (cosine {ldot})")
+            return
         if name == "invert" and dot > -0.999:
             ctx.violation("A:invert:normal-not-flipped", f"n.n' = {dot}")
             return
